@@ -2,6 +2,7 @@
   C08 — notifications faithfully mirror membership and connection state.
 -/
 import FocaModel.Proofs.SendAll
+import FocaModel.Props.C13
 namespace Foca.C08
 open Foca
 
